@@ -80,8 +80,9 @@ func (x *XArray) Format(env envs.Environment) string {
 
 	if multiline {
 		for i, p := range parts {
-			p = utils.Indent(p, "  ")
-			parts[i] = "-" + p[1:]
+			// each item starts with a dash and its other lines are indented to line up with it.. note that an item can
+			// format to an empty string in which case there is nothing to indent
+			parts[i] = "- " + strings.TrimPrefix(utils.Indent(p, "  "), "  ")
 		}
 
 		return strings.Join(parts, "\n")
